@@ -19,6 +19,13 @@ import (
 // functions exist only here: `same` returns its argument slice as is, `keep` stores it; kept
 // slices are re-read at the end. The package-level marker lists must print the same before
 // and after.
+// Keys renamed in place (35% of the cases, all of class scale): the reused function is called on the
+// first document of the history, then 1..2 keys of some of its maps are renamed IN PLACE (same map
+// objects, same sizes, c07RenameInPlace), and it is called again: the answer must be what a fresh
+// Retrieve answers for the document as it is now.
+// One case in 25 (class scale): the document has padded containers (objects of 16..70 members, arrays of
+// 17..300 elements) and 70% of these paths apply a wildcard / long multi-name list / long union / slice /
+// filter to a padded container (ScalePath in b9_scale.go).
 
 type c05 struct{}
 
@@ -184,10 +191,13 @@ func (c05) Exec(seed int64, i int, tier string) Record {
 	var gtags []string
 	var text string
 	acc := r.Chance(25)
+	scale := i%25 == 17
 	// prefer cases whose base document answers without an error (the variants flip from there)
 	for attempt := 0; ; attempt++ {
 		gtags = nil
-		if r.Chance(60) {
+		if scale {
+			doc0, p, gtags = c05ScaleCase(r)
+		} else if r.Chance(60) {
 			doc0, p, gtags = c04GenCase(r)
 		} else {
 			doc0, p = GenCase(r, DefaultOpts())
@@ -342,6 +352,28 @@ func (c05) Exec(seed int64, i int, tier string) Record {
 		return rec
 	}
 
+	// keys renamed in place between two calls of the reused function (the map objects and their sizes stay)
+	if scale || r.Chance(35) {
+		target := docs[0]
+		before := c05Canon(SafeCall(f, target))
+		if before != exp[0] {
+			rec.Viol = fmt.Sprintf("the reused function on document 0 once more differs from a fresh Retrieve: reused=%s fresh=%s", clip(before, 300), clip(exp[0], 300))
+			rec.Class = "history"
+			return rec
+		}
+		if renames := c07RenameInPlace(target, r); len(renames) > 0 {
+			want := c05Canon(Run(text, DeepCopy(target), &fresh))
+			got := c05Canon(SafeCall(f, target))
+			rec.Tags = append(rec.Tags, "inplace-rename")
+			rec.Info["renamed_in_place"] = renames
+			if got != want {
+				rec.Viol = fmt.Sprintf("after keys of the document object of call 0 were renamed in place (%s) the reused function answers %s, a fresh Retrieve %s; the document is now %s", clip(strings.Join(renames, "; "), 300), clip(got, 300), clip(want, 300), clip(JSONText(target), 600))
+				rec.Class = "history-inplace"
+				return rec
+			}
+		}
+	}
+
 	// the caller updates a document it passed before IN PLACE (same map / slice object, new content)
 	// and calls the reused function again: the answer must be the fresh answer for the new content.
 	if r.Chance(45) {
@@ -400,6 +432,23 @@ func (c05) Exec(seed int64, i int, tier string) Record {
 		rec.Key = shapeKey(p) + "/" + sig + fmt.Sprint(acc)
 	}
 	return rec
+}
+
+// c05ScaleCase: class scale (see the head of the file).
+func c05ScaleCase(r *Rng) (interface{}, *Path, []string) {
+	o := DefaultOpts()
+	o.OddKeys = r.Chance(20)
+	doc, inf := ScaleDoc(r, o, InflateOpts{Arrays: r.Chance(60), Objects: true, MaxNodes: 700, ArrLens: []int{17, 48, 64, 65, 130, 257, 300}})
+	var p *Path
+	if len(inf) > 0 && r.Chance(70) {
+		p = ScalePath(r, doc, inf[r.Intn(len(inf))], o, 35)
+		if r.Chance(15) {
+			p.Fns = o.genFns(r, 2)
+		}
+	} else {
+		p = o.genPathFrom(r, doc, doc, HeadRoot, o.MaxSteps, true)
+	}
+	return doc, p, append([]string{"class:scale"}, ScaleTags(inf)...)
 }
 
 // c05OverwriteInPlace gives `target` (a map or slice object) the content of `src` without replacing
